@@ -45,7 +45,7 @@ fn options_for(target: u8) -> Vec<(u8, Color, Kind)> {
     out
 }
 
-fn king_pairs(target: u8) -> Vec<(u8, u8)> {
+fn king_pairs_for(target: u8) -> Vec<(u8, u8)> {
     let (tf, tr) = (rc::file_of(target), rc::rank_of(target));
     let mut v: Vec<(u8, u8)> = vec![(sq(0, 0), sq(7, 7)), (sq(7, 0), sq(0, 7))];
     // a king next to the target (defender / attacker of last resort)
@@ -95,11 +95,19 @@ fn rec(base: &mut Pos, opts: &[(u8, Color, Kind)], start: usize, left: usize, ki
 }
 
 pub fn run(ctx: &Ctx, n: usize, total: &Mutex<Counts>) -> (u64, u64) {
+    let targets: Vec<u8> = if n >= 3 { vec![sq(3, 4)] } else { vec![sq(3, 4), sq(7, 0), sq(4, 7)] };
+    let a = run_ext(ctx, n, &targets, &[Kind::P, Kind::N, Kind::B, Kind::R, Kind::Q], &[Kind::P, Kind::N, Kind::B, Kind::R, Kind::Q], 5, "F-SEE", total);
+    // ties among equally valued attackers with different pieces behind them need four further men: heavy pieces only
+    let b = run_ext(ctx, 4, &[sq(3, 4)], &[Kind::P, Kind::R], &[Kind::R, Kind::Q], 1, "F-SEE-HEAVY", total);
+    (a.0 + b.0, a.1 + b.1)
+}
+
+#[allow(clippy::too_many_arguments)]
+pub fn run_ext(ctx: &Ctx, n: usize, targets: &[u8], victims: &[Kind], men: &[Kind], king_pairs: usize, name: &str, total: &Mutex<Counts>) -> (u64, u64) {
     // (target, victims)
     let mut items: Vec<(u8, Kind)> = vec![];
-    let targets: Vec<u8> = if n >= 3 { vec![sq(3, 4)] } else { vec![sq(3, 4), sq(7, 0), sq(4, 7)] };
-    for t in &targets {
-        for v in [Kind::P, Kind::N, Kind::B, Kind::R, Kind::Q] {
+    for t in targets {
+        for v in victims.iter().copied() {
             if v == Kind::P && (rc::rank_of(*t) == 0 || rc::rank_of(*t) == 7) {
                 continue;
             }
@@ -109,15 +117,15 @@ pub fn run(ctx: &Ctx, n: usize, total: &Mutex<Counts>) -> (u64, u64) {
     // shard by (item, first option index)
     let mut shards: Vec<(u8, Kind, usize)> = vec![];
     for (t, v) in &items {
-        for i in 0..options_for(*t).len() {
+        for i in 0..options_for(*t).iter().filter(|o| men.contains(&o.2)).count() {
             shards.push((*t, *v, i));
         }
     }
     let stats = Mutex::new((0u64, 0u64));
     par_for(shards.len(), |si| {
         let (t, v, first) = shards[si];
-        let opts = options_for(t);
-        let kings = king_pairs(t);
+        let opts: Vec<(u8, Color, Kind)> = options_for(t).into_iter().filter(|o| men.contains(&o.2)).collect();
+        let kings: Vec<(u8, u8)> = king_pairs_for(t).into_iter().take(king_pairs).collect();
         let mut c = Counts::new();
         let (mut st, mut tr) = (0u64, 0u64);
         let mut base = Pos::empty();
@@ -139,6 +147,6 @@ pub fn run(ctx: &Ctx, n: usize, total: &Mutex<Counts>) -> (u64, u64) {
         s.1 += tr;
     });
     let s = *stats.lock().unwrap();
-    ctx.run.family("F-SEE", &format!("targets {:?}, victims P..Q, 1..={} further men on seeing squares, 5 king pairs, white to move (+ mirrored twin per capture)", targets.iter().map(|t| rc::sq_name(*t)).collect::<Vec<_>>(), n), s.0, s.1, true, "");
+    ctx.run.family(name, &format!("targets {:?}, victims {:?}, 1..={} further men of kinds {:?} on seeing squares, {} king pair(s), white to move (+ mirrored twin per capture)", targets.iter().map(|t| rc::sq_name(*t)).collect::<Vec<_>>(), victims, n, men, king_pairs), s.0, s.1, true, "");
     s
 }
